@@ -57,7 +57,7 @@ var (
 	restart = h.Prop[Case]{Name: "restart", Gen: func(rt *rapid.T) Case { return genOps(rt, 60, false) }, Run: runRestart}
 	// forms with literal TAB, CR, VT, FF: a class of its own so that a finding there does not mask the rest
 	restartCtl = h.Prop[Case]{Name: "restart-ctl", Gen: func(rt *rapid.T) Case { return genOps(rt, 30, true) }, Run: runRestart}
-	crash      = h.Prop[Case]{Name: "crash", Gen: func(rt *rapid.T) Case { return genOps(rt, 60, false) }, Run: runCrash}
+	crash      = h.Prop[Case]{Name: "crash", Gen: func(rt *rapid.T) Case { return genOps(rt, 45, false) }, Run: runCrash}
 	crashExit  = h.Prop[Case]{Name: "crash-real-death", Gen: func(rt *rapid.T) Case {
 		c := genOps(rt, 25, false)
 		c.At = []int{rapid.IntRange(0, 1000).Draw(rt, "step")}
@@ -100,21 +100,25 @@ func TestC20(t *testing.T) {
 
 	h.RunProp(t, clearGrid, 0)
 	h.RunProp(t, limitGrid, 0)
-	h.RunProp(t, restart, h.N(700, 12000))
-	h.RunProp(t, restartCtl, h.N(200, 3000))
-	h.RunProp(t, crash, h.N(120, 1500))
-	h.RunProp(t, crashExit, h.N(25, 150))
-	h.RunProp(t, settings, h.N(30, 250))
+	h.RunProp(t, restart, h.N(600, 6000))
+	h.RunProp(t, restartCtl, h.N(150, 2000))
+	h.RunProp(t, crash, h.N(70, 700))
+	h.RunProp(t, crashExit, h.N(25, 100))
+	h.RunProp(t, settings, h.N(20, 150))
 
 	if h.C.Shard != 0 {
 		return // the enumerations are done by shard 0 only
 	}
-	// every clear range over histories and stashes of 0..6 forms, with a death at every step
+	// every clear range over histories and stashes of 0..5 (thorough: 0..7) forms, with a death at every step
+	maxLen, maxLimit := 5, 12
+	if h.Thorough() {
+		maxLen, maxLimit = 7, 25
+	}
 	h.Enumerate(t, clearGrid, func(yield func(Case) bool) {
 		for _, kind := range []string{"clear", "clearp", "sclear"} {
-			for n := 0; n <= 6; n++ {
-				for a := -2; a <= n+1; a++ {
-					for b := -2; b <= n+1; b++ {
+			for n := 0; n <= maxLen; n++ {
+				for a := -1; a <= n+1; a++ {
+					for b := -1; b <= n+1; b++ {
 						c := Case{Limit: 100}
 						addKind := "add"
 						if kind == "sclear" {
@@ -142,14 +146,14 @@ func TestC20(t *testing.T) {
 			}
 		}
 	})
-	// every limit 1..25: fill to two compactions and beyond, a death at every step of every add,
-	// then go on to the following compaction
+	// every limit 1..12 (thorough: 1..25): fill to two compactions and beyond, a death at every step
+	// of every add, then go on to the following compactions
 	h.Enumerate(t, limitGrid, func(yield func(Case) bool) {
-		for limit := 1; limit <= 25; limit++ {
+		for limit := 1; limit <= maxLimit; limit++ {
 			max := limit + limit/10
 			c := Case{Limit: limit}
 			n := 2*max + 3
-			if n > 40 {
+			if n > 30 {
 				n = max + 4
 			}
 			for i := 0; i < n; i++ {
